@@ -958,6 +958,132 @@ Proof.
   apply wal_after_snap. exact H.
 Qed.
 
+
+(** ** The snapshot update of the change-set store (wal.rs:399-414) at every cut and with one failing write,
+    without side condition: the loaded revision is never the revision of a stored set. *)
+Lemma wal_filter_ge_lt r sets : In r sets ->
+  (length (filter (fun x => (r + 1 <=? x)%N) sets) < length (filter (fun x => (r <=? x)%N) sets))%nat.
+Proof.
+  induction sets as [|y l IH]; intros H; [destruct H|].
+  assert (Hle : (length (filter (fun x => (r + 1 <=? x)%N) l) <= length (filter (fun x => (r <=? x)%N) l))%nat).
+  { clear. induction l as [|z l IH]; simpl; [lia|].
+    destruct (r + 1 <=? z) eqn:E1; destruct (r <=? z) eqn:E2; simpl; try lia.
+    apply N.leb_le in E1. apply N.leb_gt in E2. lia. }
+  simpl. destruct H as [->|H].
+  - replace (r + 1 <=? r) with false by (symmetry; apply N.leb_gt; lia).
+    rewrite N.leb_refl. simpl. lia.
+  - specialize (IH H). destruct (r + 1 <=? y) eqn:E1; destruct (r <=? y) eqn:E2; simpl; try lia.
+    apply N.leb_le in E1. apply N.leb_gt in E2. lia.
+Qed.
+
+Lemma wal_catch_up_not_in : forall f r sets,
+  (length (filter (fun x => (r <=? x)%N) sets) <= f)%nat -> ~ In (wal_catch_up f r sets) sets.
+Proof.
+  induction f as [|f IH]; intros r sets H; simpl.
+  - intros Hin. assert (In r (filter (fun x => (r <=? x)%N) sets)) by (apply filter_In; split; [assumption|apply N.leb_refl]).
+    destruct (filter (fun x => (r <=? x)%N) sets); [contradiction|simpl in H; lia].
+  - destruct (existsb (N.eqb r) sets) eqn:E.
+    + apply IH. apply existsb_exists in E. destruct E as [x [Hx Hr]]. apply N.eqb_eq in Hr. subst x.
+      pose proof (wal_filter_ge_lt r sets Hx). lia.
+    + intros Hin. rewrite existsb_false in E. specialize (E _ Hin). rewrite N.eqb_refl in E. discriminate.
+Qed.
+
+Lemma wal_load_not_in w : ~ In (wal_load w) (w_sets w).
+Proof.
+  unfold wal_load. apply wal_catch_up_not_in.
+  induction (w_sets w) as [|y l IH]; simpl; [lia|]. destruct (w_snap w <=? y); simpl; lia.
+Qed.
+
+Theorem wal_snapshot_recovers_at_every_cut : forall w n,
+  wal_load (wal_run w (firstn n (wal_snapshot_trace w))) = wal_load w.
+Proof. intros w n. apply wal_snapshot_every_prefix_loads. apply wal_load_not_in. Qed.
+
+Lemma wal_fail_at_prefix : forall l n w, wal_fail_at n l w = wal_run w (firstn n l).
+Proof.
+  induction l as [|m l IH]; intros n w; [destruct n; reflexivity|].
+  destruct n as [|n]; [reflexivity|]. simpl. apply IH.
+Qed.
+
+Theorem wal_snapshot_failed_write_recovers : forall w n,
+  wal_load (wal_fail_at n (wal_snapshot_trace w) w) = wal_load w.
+Proof. intros w n. rewrite wal_fail_at_prefix. apply wal_snapshot_recovers_at_every_cut. Qed.
+
+Theorem wal_snapshot_keeps_acknowledged : forall w n,
+  wal_keeps_acknowledged w (wal_run w (firstn n (wal_snapshot_trace w))) /\
+  wal_keeps_acknowledged w (wal_fail_at n (wal_snapshot_trace w) w).
+Proof.
+  intros w n. unfold wal_keeps_acknowledged.
+  rewrite wal_snapshot_failed_write_recovers, wal_snapshot_recovers_at_every_cut. split; lia.
+Qed.
+
+(** catch-up never goes below the snapshot *)
+Lemma wal_catch_up_ge f : forall r sets, r <= wal_catch_up f r sets.
+Proof. induction f as [|f IH]; intros r sets; simpl; [lia|]. destruct (existsb (N.eqb r) sets); [specialize (IH (r + 1) sets)|]; lia. Qed.
+
+Example wal_snapshot_nonvacuous :
+  let w := mkWal 15 [17; 15; 16] in
+  wal_load w = 18 /\ wal_snapshot_trace w = [WSnap 18; WDel 17; WDel 15; WDel 16] /\
+  map (fun n => wal_load (wal_run w (firstn n (wal_snapshot_trace w)))) [0; 1; 2; 3; 4]%nat = [18; 18; 18; 18; 18].
+Proof. vm_compute. repeat split; reflexivity. Qed.
+
+(** The swapped order (change sets removed first): regression witness. *)
+Lemma wal_dels_not_in dels : forall w x, In x (w_sets (wal_run w (map WDel dels))) -> ~ In x dels.
+Proof.
+  induction dels as [|d dels IH]; intros w x H; simpl in *; [tauto|].
+  intros [->|Hd]; [|exact (IH _ _ H Hd)].
+  apply wal_dels_subset in H. simpl in H. apply filter_In in H. destruct H as [_ H]. rewrite N.eqb_refl in H. discriminate.
+Qed.
+
+Theorem wal_swapped_failed_snapshot_write_falls_back : forall w,
+  wal_load (wal_fail_at (length (w_sets w)) (wal_snapshot_trace_swapped w) w) = w_snap w.
+Proof.
+  intros w. rewrite wal_fail_at_prefix. unfold wal_snapshot_trace_swapped.
+  rewrite <- (map_length WDel (w_sets w)), firstn_app, firstn_all, Nat.sub_diag. cbn [firstn]. rewrite app_nil_r.
+  unfold wal_load. rewrite wal_dels_snap. apply wal_catch_up_stop. apply existsb_false. intros x Hx.
+  exfalso. pose proof (wal_dels_not_in _ _ _ Hx) as Hn. apply wal_dels_subset in Hx. contradiction.
+Qed.
+
+Theorem wal_swapped_loses_acknowledged : forall w, In (w_snap w) (w_sets w) ->
+  ~ wal_keeps_acknowledged w (wal_fail_at (length (w_sets w)) (wal_snapshot_trace_swapped w) w).
+Proof.
+  intros w H. unfold wal_keeps_acknowledged. rewrite wal_swapped_failed_snapshot_write_falls_back.
+  assert (w_snap w + 1 <= wal_load w); [|lia].
+  unfold wal_load. destruct (w_sets w) as [|y l] eqn:E; [destruct H|]. cbn [length wal_catch_up].
+  replace (existsb (N.eqb (w_snap w)) (y :: l)) with true.
+  - apply wal_catch_up_ge.
+  - symmetry. apply existsb_exists. exists (w_snap w). split; [assumption|apply N.eqb_refl].
+Qed.
+
+Definition wal_snapshot_swapped_recovers : Prop := forall w n,
+  wal_load (wal_run w (firstn n (wal_snapshot_trace_swapped w))) = wal_load w.
+Theorem wal_snapshot_swapped_refuted : ~ wal_snapshot_swapped_recovers.
+Proof. intros H. specialize (H (mkWal 15 [17; 15; 16]) 1%nat). vm_compute in H. discriminate. Qed.
+
+Example wal_swapped_witness :
+  let w := mkWal 15 [17; 15; 16] in
+  map (fun n => wal_load (wal_run w (firstn n (wal_snapshot_trace_swapped w)))) [0; 1; 2; 3; 4]%nat = [18; 17; 15; 15; 18].
+Proof. vm_compute. reflexivity. Qed.
+
+(** ** The record of a rejected command (store.rs:418-424): its failing write leaves log and cache untouched;
+    written best effort instead, the cache runs ahead of the log, the next accepted command is written behind a
+    gap (the log is damaged) - while the restarted instance would have accepted it. *)
+Theorem rejected_record_best_effort_refuted :
+  let s0 := mkSys unit unit unit (empty_store unit unit) tt [] [] in
+  let cmd := complete unit unit tt (fun s _ => s) unit (fun _ _ => Some tt) (fun _ => []) (fun _ => []) (OCommand [tt]) in
+  exists s1,
+    fail_at unit unit unit 0 (steps_rejected_best_effort unit unit tt (fun s _ => s) unit s0) s0 = Some s1 /\
+    cmds unit unit (s_log _ _ _ s1) = [] /\
+    cache unit unit (s_log _ _ _ s1) = Some (mkAgg unit 2 tt) /\
+    cmd s1 = None /\
+    (exists s2, cmd (crash unit unit unit s1) = Some s2 /\ cmds unit unit (s_log _ _ _ s2) = [SEvents [tt]]).
+Proof. eexists. split; [vm_compute; reflexivity|]. vm_compute. repeat split; try reflexivity. eexists. split; reflexivity. Qed.
+
+Theorem rejected_record_failed_write_invisible : 
+  forall (S Ev : Type) (init : S) (apply : S -> Ev -> S) (Ob : Type) (listen : Ob -> list Ev -> option Ob) (pre post : list Ev -> list task)
+    (s : sys S Ev Ob),
+  fail_at S Ev Ob 0 (steps_of S Ev init apply Ob listen pre post s ORejected) s = Some s.
+Proof. intros. reflexivity. Qed.
+
 (** ** The rsync tree switch at every cut (rsync.rs:72-175, repaired by e1f99c61) *)
 Definition rs_clean (cur : option N) : rsyncd := mkRs None cur None.
 
